@@ -321,7 +321,7 @@ func runC11(c *mon.Ctx) {
 		}
 	}
 	escPool, verPool := &poolT{}, &poolT{}
-	nIn := c.Share(c.Scale(800_000, 6_000_000))
+	nIn := c.Share(c.Scale(800_000, 30_000_000))
 	c06RunChunked(c, "ip", nIn, func(i int) c06Case {
 		g, x := pathInput()
 		keep(escPool, c11Path.status(x), x)
@@ -345,7 +345,7 @@ func runC11(c *mon.Ctx) {
 	}
 
 	// ---- case-variant families: all 2^k casings of a skeleton, escapes compared pairwise -------------
-	nFam := c.Share(c.Scale(1360, 10200))
+	nFam := c.Share(c.Scale(1360, 51000))
 	for f := 0; f < nFam; f++ {
 		id := fmt.Sprintf("fam%d", f)
 		side := c11Path
@@ -426,7 +426,7 @@ func runC11(c *mon.Ctx) {
 	if len(verPool.l) == 0 {
 		verPool.l = append(verPool.l, "v1.0.0-!r!c1")
 	}
-	c06RunChunked(c, "u", c.Share(c.Scale(800_000, 6_000_000)), func(i int) c06Case {
+	c06RunChunked(c, "u", c.Share(c.Scale(800_000, 30_000_000)), func(i int) c06Case {
 		side, pool := c11Path, escPool.l
 		if i%3 == 2 {
 			side, pool = c11Version, verPool.l
